@@ -11,8 +11,8 @@ use std::io::Write;
 
 fn put_val(t: &mut Toks, v: &DhcpOptionTypeValue) {
     match v {
-        DhcpOptionTypeValue::String(_) => {
-            t.n(1);
+        DhcpOptionTypeValue::String(s) => {
+            t.n(1).bytes(s.as_bytes());
         }
         DhcpOptionTypeValue::Ip(a) => {
             t.n(2).ip4(*a);
@@ -46,6 +46,9 @@ fn put_val(t: &mut Toks, v: &DhcpOptionTypeValue) {
         }
         DhcpOptionTypeValue::DomainList(l) => {
             t.n(10).n(l.len() as u64);
+            for d in l {
+                t.bytes(d.as_bytes());
+            }
         }
         DhcpOptionTypeValue::Unknown(b) => {
             t.n(11).bytes(b);
@@ -528,9 +531,20 @@ pub fn run(args: &Args, out: &mut dyn Write) -> Stats {
                 emit(out, case_decode(code, &v));
             }
             _ => {
-                st.bump("dhcpopt.rand.packet");
-                let p = gen_packet(&mut r, &mut st);
-                emit(out, case_recv(&p));
+                if r.chance(1, 40) {
+                    st.bump("dhcpopt.rand.arbitrary");
+                    let k = *r.pick(&[0usize, 1, 239, 240, 241, 243, 300, 1500, 65535]);
+                    let mut p = r.bytes(k);
+                    if k > 240 && r.chance(1, 2) {
+                        p[236..240].copy_from_slice(&[99, 130, 83, 99]);
+                        p[2] = 6;
+                    }
+                    emit(out, case_recv(&p));
+                } else {
+                    st.bump("dhcpopt.rand.packet");
+                    let p = gen_packet(&mut r, &mut st);
+                    emit(out, case_recv(&p));
+                }
             }
         }
     }
